@@ -102,6 +102,23 @@ def handle(case):
             kinds.append(("predicate_derived", PREDS[(n, ndef, "derived")]))
         except Exception:
             pass
+    if style == "plain" and n == 1 and vs == [1] and not kw:
+        # one expensive single-parameter predicate used twice in ONE query, on two items of the same object:
+        # and_(E(r.cells[0]), E(r.cells[1])); and in a second, later query on the other item only
+        E = PREDS[(n, ndef, "expensive")]
+        rows = [Row(cells=tuple(c)) for c in itertools.product([0, 1, 2], repeat=2)]
+        o = {}
+        try:
+            from krrood.entity_query_language.entity import and_
+            rv = let(Row, rows, name="r")
+            del LOG[:]
+            first = sorted(list(x.cells) for x in an(entity(rv, and_(E(rv.cells[0]), E(rv.cells[1])))).evaluate())
+            rv2 = let(Row, rows, name="r2")
+            second = sorted(list(x.cells) for x in an(entity(rv2, E(rv2.cells[1]))).evaluate())
+            o = {"both_items": first, "second_item_later": second}
+        except Exception as ex:
+            o = {"error": f"{type(ex).__name__}: {ex}"}
+        out["expensive_predicate_on_two_items"] = o
     for kind, target in kinds:
         V = {i: let(int, [0, 1, 2], name=f"v{i}") for i in vs}
         val = lambda i: V[i] if i in V else i
